@@ -298,9 +298,10 @@ class MQTTProtocol(MQTTBaseProtocol):
         else:
             log.debug("<== {packet:7} (id={response.msgId:04x})", packet="PUBACK", response=response)
             request.alarm.cancel()
-            request.deferred.callback(request.msgId)
             del self.factory.windowPublish[self.addr][response.msgId]
             self._refillPublish(dup=False)
+            # the callback comes last: it may call back into the API (e.g. disconnect())
+            request.deferred.callback(request.msgId)
 
     # --------------------------------------------------------------------------
 
@@ -343,9 +344,10 @@ class MQTTProtocol(MQTTBaseProtocol):
         else: 
             log.debug("<== {packet:7} (id={response.msgId:04x})", packet="PUBCOMP", response=response)
             reply.alarm.cancel()
-            reply.deferred.callback(reply.msgId)
             del self.factory.windowPubRelease[self.addr][reply.msgId]
             self._refillPublish(dup=False)
+            # the callback comes last: it may call back into the API (e.g. disconnect())
+            reply.deferred.callback(reply.msgId)
 
 
     # ---------------------------
